@@ -369,7 +369,7 @@ def subchecks(tier):
             quick=400,
             thorough=40000,
             steps=25,
-            floors={"remove_or_update_after_two_adds": 0.3, "scalar_multiple_inside_sum": 0.3, "subset_query": 0.3, "failed_add": 0.15},
+            floors={"remove_or_update_after_two_adds": 0.134, "scalar_multiple_inside_sum": 0.128, "subset_query": 0.101, "failed_add": 0.117},
         )
     ]
 
